@@ -58,7 +58,7 @@ Definition args_valid (e : env) (r : request) : bool :=
 Definition io_fails (e : env) (r : request) (io : bool) : bool :=
   match r with
   | RqComment _ => io && e_writing e
-  | RqWriteControl (WStart _ _ pathok) => negb pathok
+  | RqWriteControl (WStart _ _ pathok) => negb pathok || io    (* the run directory / the experiment-state file *)
   | RqStoreRaw _ => io                              (* the temporary file cannot be created *)
   | _ => false
   end.
